@@ -1469,13 +1469,29 @@ class Interp(object):
         self.functions_seen[q] = (f.module.path, node.lineno)
         if isinstance(node, ast.Lambda):
             return self.eval(node.body, env, f.module)
+        is_gen = _is_generator(node)
+        if is_gen:
+            # generator functions are run eagerly; the yielded values are collected in order
+            env.vars["__yield__"] = []
         self.call_depth += 1
         try:
             self.exec_block(node.body, env, f.module)
         except _Return as r:
+            if is_gen:
+                return env.vars["__yield__"]
             return r.value
         finally:
             self.call_depth -= 1
+        if is_gen:
+            return env.vars["__yield__"]
+        return None
+
+    def ex_Yield(self, node, env, mod):
+        env.lookup("__yield__").append(self.eval(node.value, env, mod) if node.value is not None else None)
+        return None
+
+    def ex_YieldFrom(self, node, env, mod):
+        env.lookup("__yield__").extend(self.iterate(self.eval(node.value, env, mod)))
         return None
 
     # ------------------------------------------------------------ binary operators
@@ -1584,6 +1600,18 @@ def scalar_binop(k, a, b):
     if k in ("LShift", "RShift") and not sym:
         return (a << b) if k == "LShift" else (a >> b)
     raise Unsupported("binary operator %s" % k)
+
+
+def _is_generator(fnode):
+    stack = list(fnode.body)
+    while stack:
+        n = stack.pop()
+        if isinstance(n, (ast.Yield, ast.YieldFrom)):
+            return True
+        if isinstance(n, (ast.FunctionDef, ast.Lambda, ast.ClassDef)):
+            continue
+        stack.extend(ast.iter_child_nodes(n))
+    return False
 
 
 def _dotted(node):
